@@ -167,7 +167,7 @@ def units(tier):
 
     # ------------------------------------------------------------ device types, conforming unit
     for dname, dmk in short_dests():
-        for n in range(0, MAXTYPES + 1):
+        for n in range(0, (MAXTYPES if tier != "thorough" else 12) + 1):
             def r_types(ctx, interp, fn, dmk=dmk, n=n):
                 u = GroupsAndTypesUnit(ctx, ntypes=n)
                 want = list(u.types)
@@ -194,7 +194,7 @@ def units(tier):
             unit("device-types-fault/%s/n=%d" % (dname, n), r_types_fault)
 
     # ------------------------------------------------------------ device types, adversarial unit
-    for length in range(1, 6):
+    for length in range(1, 6 if tier != "thorough" else 8):
         def r_adv(ctx, interp, fn, length=length):
             u = AdversarialAnswers(ctx, length, tail=254)
             h = Harness(ctx, interp, u)
